@@ -107,7 +107,60 @@ pub fn exec(case: &Value) -> Vec<Value> {
             Ok(_) => rec["st"] = json!("err:tensorize:wrong variant"),
             Err(m) => rec["st"] = json!(format!("panic:tensorize:{m}")),
         }
+        // the other task kinds over the same token ids: generation, classification, conditional generation (the targets
+        // are the ids of the next text, reversed, padded with a pad id of their own); every padded matrix is recorded as
+        // [name, rows, cols, flat, items, pad, lens]; labels are shifted by one (padding -1 becomes 0)
+        let n = idlists.len();
+        let lab = |k: usize| -> Vec<i32> { (0..idlists[k].len().saturating_sub(k % 2)).map(|x| (x % 3) as i32).collect() };
+        let pad = tok.pad_token_id();
+        let tpad = pad + 7;
+        let targets: Vec<Vec<u32>> = (0..n).map(|k| idlists[(k + 1) % n].iter().rev().copied().collect()).collect();
+        let mut others: Vec<Value> = vec![];
+        let m2 = |name: &str, (rows, cols, flat): (usize, usize, Vec<u32>), items: &Vec<Vec<u32>>, pad: u32, lens: Vec<usize>| {
+            json!({"name": name, "rows": rows, "cols": cols, "flat": flat, "items": items, "pad": pad, "lens": lens, "has_lens": true})
+        };
+        let l2 = |name: &str, (rows, cols, flat): (usize, usize, Vec<i32>), items: Vec<Vec<i32>>| {
+            json!({"name": name, "rows": rows, "cols": cols, "flat": flat.iter().map(|x| *x + 1).collect::<Vec<i32>>(),
+                   "items": items.iter().map(|v| v.iter().map(|x| *x + 1).collect::<Vec<i32>>()).collect::<Vec<_>>(), "pad": 0, "lens": [], "has_lens": false})
+        };
+        let mk = |f: &dyn Fn(usize) -> TrainTaskInput| -> Vec<TrainItem> {
+            (0..n).map(|k| TrainItem::new(TrainData::new(texts[k].clone(), None), f(k))).collect()
+        };
+        let labs: Vec<Vec<i32>> = (0..n).map(lab).collect();
+        match guard(|| mk(&|k| TrainTaskInput::Generation { token_ids: idlists[k].clone(), pad_token_id: pad, labels: lab(k) }).tensorize()) {
+            Ok(TensorizedTrainTaskInput::Generation(ids, lens, labels)) => {
+                others.push(m2("generation_ids", (ids.nrows(), ids.ncols(), ids.iter().copied().collect()), &idlists, pad, lens.iter().copied().collect()));
+                others.push(l2("generation_labels", (labels.nrows(), labels.ncols(), labels.iter().copied().collect()), labs.clone()));
+            }
+            Ok(_) => rec["st"] = json!("err:tensorize:wrong variant"),
+            Err(m) => rec["st"] = json!(format!("panic:tensorize_generation:{m}")),
+        }
+        match guard(|| mk(&|k| TrainTaskInput::Classification { token_ids: idlists[k].clone(), pad_token_id: pad, label: k as i32 }).tensorize()) {
+            Ok(TensorizedTrainTaskInput::Classification(ids, lens, labels)) => {
+                others.push(m2("classification_ids", (ids.nrows(), ids.ncols(), ids.iter().copied().collect()), &idlists, pad, lens.iter().copied().collect()));
+                if labels.iter().copied().collect::<Vec<i32>>() != (0..n as i32).collect::<Vec<i32>>() {
+                    rec["st"] = json!("err:tensorize:classification labels");
+                }
+            }
+            Ok(_) => rec["st"] = json!("err:tensorize:wrong variant"),
+            Err(m) => rec["st"] = json!(format!("panic:tensorize_classification:{m}")),
+        }
+        match guard(|| {
+            mk(&|k| TrainTaskInput::ConditionalGeneration { token_ids: idlists[k].clone(), pad_token_id: pad, target_token_ids: targets[k].clone(),
+                                                           target_pad_token_id: tpad, labels: lab(k) })
+            .tensorize()
+        }) {
+            Ok(TensorizedTrainTaskInput::ConditionalGeneration(ids, lens, tids, tlens, labels)) => {
+                others.push(m2("conditional_ids", (ids.nrows(), ids.ncols(), ids.iter().copied().collect()), &idlists, pad, lens.iter().copied().collect()));
+                others.push(m2("conditional_target_ids", (tids.nrows(), tids.ncols(), tids.iter().copied().collect()), &targets, tpad, tlens.iter().copied().collect()));
+                others.push(l2("conditional_labels", (labels.nrows(), labels.ncols(), labels.iter().copied().collect()), labs.clone()));
+            }
+            Ok(_) => rec["st"] = json!("err:tensorize:wrong variant"),
+            Err(m) => rec["st"] = json!(format!("panic:tensorize_conditional:{m}")),
+        }
+        rec["others"] = json!(others);
     } else if rec["st"] == "ok" {
+        rec["others"] = json!([]);
         rec["tensor"] = json!({"rows": 0, "cols": 0, "ids": [], "lens": [], "lrows": 0, "lcols": 0, "labels": [], "in_ids": [], "in_labels": []});
     }
     vec![rec]
